@@ -250,6 +250,16 @@ class VM:
             except _ThrowThroughNative as e:
                 # Thrown by script code that a built-in was running
                 self._throw(e.value)
+            except JSError as e:
+                # Any other error raised by a built-in (JSON.parse, RegExp,
+                # nested eval...) is a script exception too; the limit
+                # errors are not, and never reach script handlers
+                if (
+                    isinstance(e, (TimeLimitError, MemoryLimitError))
+                    or not self.exception_handlers
+                ):
+                    raise
+                self._handle_python_exception(e.name, e.message)
 
             # Check if frame was popped (return)
             if not self.call_stack:
@@ -2412,6 +2422,13 @@ class VM:
                 except _ThrowThroughNative as e:
                     # Thrown by script code that a nested built-in was running
                     self._throw(e.value)
+                except JSError as e:
+                    if (
+                        isinstance(e, (TimeLimitError, MemoryLimitError))
+                        or not self.exception_handlers
+                    ):
+                        raise
+                    self._handle_python_exception(e.name, e.message)
 
             # Get result from stack
             if len(self.stack) > stack_len:
